@@ -46,6 +46,33 @@ def gen_one(short):
     return _gen_function(prog, cfg, short, keep=False)
 
 
+def _one_obligation(i):
+    """VC text of obligation i of the current function; discharged on the spot unless it is kept for replay."""
+    v, obs, short, keep = _G["cur"]
+    ob = obs[i]
+    hyps, pc, goal = build_vc(v, ob)
+    base = {"name": ob.name, "kind": ob.kind, "func": short, "ln": ob.ln, "clause": ob.text, "canary": ob.canary}
+    # cheap pre-filter: goals that already follow from the path condition alone (e.g. a per-type postcondition
+    # on a path of another type) need no hypotheses and no external solver
+    pre_s = z3.Solver()
+    pre_s.set("timeout", 150)
+    pre_s.add(pc)
+    pre_s.add(z3.Not(goal))
+    if pre_s.check() == z3.unsat:
+        base["presolved"] = True
+        return base
+    text, fallback = solve.vc_texts(hyps, pc, goal)
+    base["text"], base["fallback"] = text, fallback
+    if keep:
+        base["verifier"], base["ob"] = v, ob
+        return base
+    tq, tf, cross = _G.get("solve_params", (6.0, 20.0, False))
+    base["result"] = solve.solve_text((ob.name, text, tq, tf, cross, fallback))
+    base["text"], base["fallback"] = "", None   # do not ship megabytes of SMT text back to the parent
+    base["solved_in_worker"] = True
+    return base
+
+
 def _gen_function(prog, cfg, short, keep):
     jobs = []
     meta = {"functions": [], "assumptions": set(), "models": set(), "bounded": set(), "summarised": set(),
@@ -87,23 +114,16 @@ def _gen_function(prog, cfg, short, keep):
             ob.name = "%s#%d" % (n, seen[n])
         else:
             seen[n] = 1
-        hyps, pc, goal = build_vc(v, ob)
-        # cheap pre-filter: goals that already follow from the path condition alone (e.g. a per-type postcondition
-        # on a path of another type) need no hypotheses and no external solver
-        pre_s = z3.Solver()
-        pre_s.set("timeout", 150)
-        pre_s.add(pc)
-        pre_s.add(z3.Not(goal))
-        if pre_s.check() == z3.unsat:
-            jobs.append({"name": ob.name, "kind": ob.kind, "func": short, "ln": ob.ln, "clause": ob.text, "canary": ob.canary,
-                         "presolved": True})
-            continue
-        text, fallback = solve.vc_texts(hyps, pc, goal)
-        j = {"name": ob.name, "kind": ob.kind, "text": text, "fallback": fallback, "func": short, "ln": ob.ln, "clause": ob.text,
-             "canary": ob.canary}
-        if keep:
-            j["verifier"], j["ob"] = v, ob
-        jobs.append(j)
+    _G["cur"] = (v, obs, short, keep)
+    tq, tf, cross = _G.get("solve_params", (6.0, 20.0, False))
+    idxs = list(range(len(obs)))
+    if len(obs) > 48 and not keep and not os.environ.get("GOVC_SERIAL"):
+        # many obligations (path-split functions): build and discharge them in a forked sub-pool that shares this
+        # process's executor state copy-on-write
+        with multiprocessing.get_context("fork").Pool(min(int(_G.get("inner", 6)), max(2, len(obs) // 24))) as pool:
+            jobs += pool.map(_one_obligation, idxs, chunksize=8)
+    else:
+        jobs += [_one_obligation(i) for i in idxs]
     # vacuity: the assumed precondition (+ type facts) must be satisfiable
     pre = [x for x in v.facts[:getattr(v, "n_pre_facts", 0)] if not z3.is_true(x)]
     if f.contract is not None and f.contract.of("requires"):
@@ -127,9 +147,13 @@ def generate(prog, props, log):
     _G["prog"], _G["cfg"] = prog, props.get("config", {})
     shorts = list(props["functions"])
     if len(shorts) > 1 and not os.environ.get("GOVC_SERIAL"):
-        with multiprocessing.get_context("fork").Pool(min(16, len(shorts))) as pool:
-            results = pool.map(gen_one, shorts, chunksize=1)
+        import concurrent.futures as cf
+        outer = min(8, len(shorts))
+        _G["inner"] = max(2, 16 // outer)
+        with cf.ProcessPoolExecutor(outer, mp_context=multiprocessing.get_context("fork")) as ex:
+            results = list(ex.map(gen_one, shorts))
     else:
+        _G["inner"] = 16
         results = [gen_one(s_) for s_ in shorts]
     for j2, m2 in results:
         jobs += j2
@@ -141,16 +165,39 @@ def generate(prog, props, log):
 
 
 def attach_verifier(prog, props, job):
-    """Re-generate the function of a failed obligation in this process so that its model can be searched and replayed."""
-    if job.get("verifier") is not None or "text" not in job:
+    """Re-run the executor on the function of a failed obligation in this process so that its model can be searched
+    and replayed (only the verifier and the obligation object are needed, not the VC texts of the whole function)."""
+    if job.get("verifier") is not None or "func" not in job or job.get("kind") in ("subset", "binding", "frontend"):
         return
     cache = _G.setdefault("regen", {})
     short = job["func"]
     if short not in cache:
-        cache[short] = _gen_function(prog, props.get("config", {}), short, keep=True)[0]
-    for j in cache[short]:
-        if j["name"] == job["name"] and "ob" in j:
-            job["verifier"], job["ob"] = j["verifier"], j["ob"]
+        f = prog.funcs.get(full_key(short))
+        if f is None:
+            cache[short] = None
+        else:
+            v = Verifier(prog, props.get("config", {}))
+            try:
+                obs = v.verify(f)
+            except Exception:
+                obs = None
+            if obs is not None:
+                seen = {}
+                for ob in obs:
+                    n = ob.name
+                    if n in seen:
+                        seen[n] += 1
+                        ob.name = "%s#%d" % (n, seen[n])
+                    else:
+                        seen[n] = 1
+            cache[short] = (v, obs)
+    ent = cache.get(short)
+    if not ent or ent[1] is None:
+        return
+    v, obs = ent
+    for ob in obs:
+        if ob.name == job["name"]:
+            job["verifier"], job["ob"] = v, ob
             return
 
 
@@ -165,6 +212,9 @@ def run(pid, tier, repo="/repo", out_evidence=True, quiet=False):
         prog = None
         load_err = str(ex)
     jobs, meta = [], None
+    tq = float(os.environ.get("GOVC_TQUICK", "6"))
+    tf = float(os.environ.get("GOVC_TFULL", "20" if tier == "quick" else "120"))
+    cross = tier == "thorough"
     if prog is None:
         jobs = [{"name": pid + ":frontend:load", "kind": "frontend", "status": "failed", "detail": load_err, "func": ""}]
         meta = {"functions": [], "assumptions": set(), "models": set(), "bounded": set(), "outside": [], "notes": [],
@@ -172,13 +222,11 @@ def run(pid, tier, repo="/repo", out_evidence=True, quiet=False):
     else:
         for e in prog.errors:
             jobs.append({"name": pid + ":frontend:contract-file", "kind": "frontend", "status": "failed", "detail": e, "func": ""})
+        _G["solve_params"] = (tq, tf, cross)
         j2, meta = generate(prog, props, log)
         jobs += j2
     t_gen = time.time() - t_start
-    tq = float(os.environ.get("GOVC_TQUICK", "6"))
-    tf = float(os.environ.get("GOVC_TFULL", "20" if tier == "quick" else "120"))
-    cross = tier == "thorough"
-    todo = [(j["name"], j["text"], tq, tf, cross and j.get("expect") != "sat", j.get("fallback")) for j in jobs if "text" in j]
+    todo = [(j["name"], j["text"], tq, tf, cross and j.get("expect") != "sat", j.get("fallback")) for j in jobs if "text" in j and "result" not in j]
     if seed:
         import random
         random.Random(seed).shuffle(todo)
@@ -207,7 +255,7 @@ def run(pid, tier, repo="/repo", out_evidence=True, quiet=False):
             failed.append(j)
             counted += 1
             continue
-        r = results[j["name"]]
+        r = j.get("result") or results[j["name"]]
         j["result"] = r
         exp = j.get("expect", "unsat")
         ok = r["status"] == exp
